@@ -21,9 +21,14 @@ def splitmix(x):
     return x, z ^ (z >> 31)
 
 
-def miri(prop, scenario, flags, timeout=900):
+# the kernel each property runs under Miri (C13 shares the readers-vs-reloads kernel of C07: its heap values
+# are freed by reloads while guards may be alive, which Miri reports as use-after-free / data race)
+KERNEL = {"C13": "C07"}
+
+
+def miri(prop, scenario, flags, timeout=1800):
     env = dict(ENV, MIRIFLAGS=flags)
-    p = subprocess.run(["cargo", "+nightly", "miri", "run", "--offline", "-q", "--", prop, str(scenario)], cwd=HERE, env=env, capture_output=True, text=True, timeout=timeout)
+    p = subprocess.run(["cargo", "+nightly", "miri", "run", "--offline", "-q", "--", KERNEL.get(prop, prop), str(scenario)], cwd=HERE, env=env, capture_output=True, text=True, timeout=timeout)
     return p.returncode, p.stderr + p.stdout
 
 
@@ -63,6 +68,9 @@ def main():
     seed = int(a[a.index("--seed") + 1]) if "--seed" in a else 20260927
     summary = a[a.index("--summary") + 1] if "--summary" in a else None
     n_scen, n_seeds, rates = (24, 16, ["0.05", "0.4"]) if tier == "quick" else (300, 32, ["0.01", "0.1", "0.5"])
+    if prop in ("C07", "C13"):
+        # whole-cache scenarios (cache + reloader thread + readers) cost ~1 s per execution under Miri
+        n_scen, n_seeds, rates = (10, 8, ["0.05", "0.4"]) if tier == "quick" else (120, 16, ["0.01", "0.1", "0.5"])
     if os.environ.get("VERIF_MIRI_SCENARIOS"):
         n_scen = int(os.environ["VERIF_MIRI_SCENARIOS"])
     # warm build (serialises compilation; the parallel runs below then only execute)
@@ -123,7 +131,7 @@ def main():
             "scenarios": n_scen, "miri_seeds_per_scenario": n_seeds, "preemption_rates": rates,
             "executions_per_hour": int(ev / wall * 3600) if wall > 0 else 0, "wall_s": round(wall, 1),
             "oracle": "assertions of the scenario + Miri: undefined behaviour, data races, use-after-free, dealloc layout, leaks at exit",
-            "components_real": ["src/utils/bytes.rs", "src/utils/cell.rs", "src/entry.rs (ReloadId, AtomicReloadId)", "once_cell (real)", "std atomics"],
+            "components_real": ["src/utils/bytes.rs", "src/utils/cell.rs", "src/entry.rs", "for C07/C13: the whole cache with hot-reloading over an in-memory source (real std locks, real crossbeam-channel, real reloader thread)", "once_cell (real)", "std atomics"],
             "samples": [{"engine": "miri", "property": prop, "scenario": scenarios[0], "flags": f"-Zmiri-many-seeds=0..{n_seeds} -Zmiri-preemption-rate={rates[0]}"}],
             "violations": len(viol), "violation_list": viol,
         }, open(summary, "w"), indent=1)
